@@ -30,6 +30,7 @@ CONSTANTS
     MaxInits,    \* number of initialize commands explored
     AllowFaults, \* BOOLEAN: may handlers raise
     StratOps,    \* subset of {0, 1}: strategies a handler may switch to (0 continue, 1 pause)
+    EndRepOps,   \* BOOLEAN: a handler may call end_replication() as its last operation (run mode only)
     MaxCmds,     \* commands (accepted or refused) explored per behaviour
     Cmds         \* which commands a configuration explores (Initialize is always explored)
 
@@ -73,10 +74,14 @@ OpSet(n) ==
   \cup [k : BadKinds, a : {0}, p : {5}]
   \cup [k : {"cancel"}, a : 1..n, p : {0}]
   \cup [k : {"strat"}, a : StratOps, p : {0}]      \* set_error_strategy: 0 = continue, 1 = pause
+  \cup (IF EndRepOps THEN [k : {"endrep"}, a : {0}, p : {0}] ELSE {})
 OpSeqs(n) == UNION {[1..k -> OpSet(n)] : k \in 0..MaxOps}
 NSched(ops) == Cardinality({i \in 1..Len(ops) : ops[i].k \in SchedKinds})
+EndsRep(ops) == ops # <<>> /\ ops[Len(ops)].k = "endrep"
 Handlers(n) == {h \in [ops : OpSeqs(n), raise : IF AllowFaults THEN BOOLEAN ELSE {FALSE}] :
-                   NSched(h.ops) <= MaxId - n}
+                   /\ NSched(h.ops) <= MaxId - n
+                   /\ \A j \in 1..Len(h.ops) - 1 : h.ops[j].k # "endrep"      \* end_replication() only as the last operation
+                   /\ (EndsRep(h.ops) => ~h.raise)}
 
 (* effect of one operation list at clock clk on (E, P); res[i] = new id, 0 = refused, -1 = cancel *)
 RECURSIVE ApplyOps(_, _, _, _)
@@ -197,7 +202,7 @@ Stop == CmdOK /\ ncmd' = ncmd + 1 /\ "Stop" \in Cmds /\ Refuse("Stop", 0)
 
 (* a notification that is due is observed *)
 Emit ==
-    /\ due # <<>>
+    /\ due # <<>> /\ Head(due).ty # "ENDREQ"
     /\ notif' = Append(notif, Head(due)) /\ due' = Tail(due)
     /\ op' = [a |-> "Notif", ty |-> Head(due).ty, ts |-> Head(due).ts]
     /\ UNCHANGED <<rs, rep, clock, ev, pending, bound, incl, mode, seg, executed, prog, initOps,
@@ -239,12 +244,25 @@ ExecNextWith(h) ==
                   /\ op' = [a |-> "Exec", id |-> m, clk |-> ev[m].t, kind |-> "H", ops |-> h.ops,
                             res |-> r.res, raise |-> h.raise]
                /\ strat' = StratAfter(h.ops, strat)
+               /\ (EndsRep(h.ops) => mode = "run")
                /\ IF h.raise /\ strat' = "pause" /\ mode = "run"
                   THEN \* fault pause: the segment ends right after the failing event
                        /\ rs' = "STOPPED" /\ mode' = "none"
                        /\ due' = <<[ty |-> "STOP", ts |-> ev[m].t]>>
-                  ELSE /\ due' = <<>> /\ UNCHANGED <<rs, mode>>
+                  ELSE /\ due' = (IF EndsRep(h.ops) THEN <<[ty |-> "ENDREQ", ts |-> 0]>> ELSE <<>>)
+                       /\ UNCHANGED <<rs, mode>>
     /\ UNCHANGED <<rep, bound, incl, initOps, notif, nrep, premature, ncmd>>
+
+(* the handler called end_replication(): pending events are dropped, the clock jumps to the end, the  *)
+(* run loop finds nothing to do and the replication ends (and the clock must not move back to a bound) *)
+HandlerEndRep ==
+    /\ due # <<>> /\ Head(due).ty = "ENDREQ"
+    /\ rs' = "ENDED" /\ rep' = "ENDED" /\ mode' = "none" /\ pending' = {}
+    /\ clock' = IF clock < EndT THEN EndT ELSE clock
+    /\ premature' = TRUE /\ ann' = FALSE
+    /\ due' = <<[ty |-> "STOP", ts |-> clock'], [ty |-> "END_REPLICATION", ts |-> clock']>>
+    /\ op' = [a |-> "HandlerEndRep"]
+    /\ UNCHANGED <<ev, bound, incl, seg, executed, prog, initOps, notif, nrep, ncmd, strat>>
 
 ExecNext ==
     /\ Running /\ ~StepDone /\ HasNext
@@ -321,7 +339,7 @@ FreshSimulator ==
 RunUpToAny == \E b \in Bounds, inc \in BOOLEAN : RunUpTo(b, inc)
 
 Commands == Initialize \/ Start \/ RunUpToAny \/ Step \/ Stop
-Internal == Emit \/ AnnounceTC \/ ExecNext \/ SegmentEnd \/ StepEnd \/ Pause
+Internal == Emit \/ AnnounceTC \/ ExecNext \/ HandlerEndRep \/ SegmentEnd \/ StepEnd \/ Pause
 Next == Commands \/ Internal \/ EndReplication \/ Cleanup
 
 Spec == Init /\ [][Next]_vars
